@@ -335,6 +335,21 @@ impl Property for C12 {
 
     fn generate(rng: &mut Rng, _tier: Tier) -> Trace {
         let mut ops = if rng.chance(1, 4) { biased_prefix(rng) } else { vec![] };
+        if rng.chance(1, 1500) {
+            // scale: one function with hundreds of parameters / blocks (limits at 255/256, 1023/1024)
+            ops.push(BOp::BeginFunction { explicit_id: false, control: 0 });
+            let n = *rng.pick(&[255usize, 256, 257, 300, 1023, 1025]);
+            for _ in 0..n {
+                ops.push(BOp::Parameter);
+            }
+            if rng.chance(1, 2) {
+                for _ in 0..rng.range(255, 300) {
+                    ops.push(BOp::BeginBlock { explicit_id: false });
+                    ops.push(gen_call(rng, MClass::Terminator).unwrap_or(BOp::Id));
+                }
+            }
+            ops.push(BOp::EndFunction);
+        }
         let n = rng.range(5, 60) as usize;
         // swarm: some runs are mostly legal (deep structures), some mostly random
         let legal_bias = rng.below(3);
